@@ -19,6 +19,10 @@ level("C12", "other",
       "(Xcov). F15 found and repaired.",
       trusted=["blackbird.match_template and the layout isomorphism test of Compiler.compile are not under contract"])
 
+native("C12", "c12_device", "native/c12_device.py",
+       bound="mock 4-mode X-series device (layout template, allowed squeezing values, phase ranges): 27 (quick) / 63 (thorough) valid "
+             "sources compiled and checked for topology, parameter sets and state; 6 kinds of sources the device cannot run; 7 "
+             "measurement-limit cases of Program.assert_modes", timeout=900)
 native("C12", "c12_hw", "native/c12_hw.py", bound="n=4 (quick) / 4,6,8 (thorough); 7 squeezer patterns x 3-5 unitaries x 2 orders x 2 compilers", timeout=900)
 
 
